@@ -201,7 +201,12 @@ class MacroProgram(ElementProgram):
 
         # Remember whitespace for item repetition
         if self._last is not None:
-            self._whitespace = "\n" + " " * len(self._last.rsplit('\n', 1)[-1])
+            indent = self._last.rsplit('\n', 1)[-1]
+            # the indentation as written (tabs stay tabs); text in front
+            # of the element on the same line counts as blanks
+            self._whitespace = "\n" + (
+                indent if not indent.strip() else " " * len(indent)
+            )
 
         # Set element-local whitespace
         whitespace = self._whitespace
